@@ -19,3 +19,6 @@ def rules(ctx):
     S.c01_r7_latch(ctx)
     S.c01_r8_open_recovery(ctx)
     S.c01_r9_clean_close(ctx)
+    S.c05_r7_savepoint_symmetry(ctx)
+    S.c12_tree_rules(ctx)
+    S.c12_db_rules(ctx)
